@@ -80,6 +80,19 @@ func runC18(c *Ctx, r *Report, tier string) {
 
 	// FILTER
 	on := c.fname(con)
+	// the short names remembered as "already offered through their long name" are those of options that WERE
+	// offered: the bookkeeping store stands under the offer's own conditions (prefix match ∧ ¬Hidden)
+	for _, b := range c.blocks(con) {
+		for _, in := range b.Instrs {
+			mu, ok := in.(*ssa.MapUpdate)
+			if !ok || c.term(mu.Map) != "makemap[map[string]bool]" {
+				continue
+			}
+			_, pre := c.Requires(con, isInstr(in), func(l Lit) bool { return l.Pos && strings.HasPrefix(l.Term, "call:strings.HasPrefix(") }, nil)
+			_, vis := c.Requires(con, isInstr(in), func(l Lit) bool { return !l.Pos && strings.HasPrefix(l.Term, "Option.Hidden(") }, nil)
+			r.Check(pre && vis, "FILTER", on, "a short name is marked as covered only by an option that is offered", c.ipos(in), "REQ(prefix match) ∧ REQ(¬Hidden) at the bookkeeping store", fmt.Sprintf("prefix necessary=%v ¬Hidden necessary=%v: a hidden or non-matching long option suppresses a visible option that shares its short name", pre, vis))
+		}
+	}
 	nOff := 0
 	for _, in := range c.instrs(con, c.isCallTo("append")) {
 		call := in.(*ssa.Call)
@@ -377,6 +390,18 @@ func runC18(c *Ctx, r *Report, tier string) {
 	}
 	// value completion asks the value itself first, whether or not it is addressable
 	if cvf := c.Fn("(*completion).completeValue"); cvf != nil {
+		nSelf := 0
+		for _, b := range c.blocks(cvf) {
+			for _, in := range b.Instrs {
+				if ta, ok := in.(*ssa.TypeAssert); ok && typeName(ta.AssertedType) == "Completer" {
+					t := c.term(ta.X)
+					if strings.HasPrefix(t, "call:(reflect.Value).Interface(") && !strings.Contains(t, ".Addr(") {
+						nSelf++
+					}
+				}
+			}
+		}
+		r.Check(nSelf >= 1, "REATTACH", c.fname(cvf), "the value itself is asked for completions", c.pos(cvf.Pos()), "a Completer assertion on value.Interface() (not on its address)", "only the value's address is asked: an option field that is a pointer to a completing type offers nothing")
 		for _, b := range c.blocks(cvf) {
 			for _, in := range b.Instrs {
 				ta, ok := in.(*ssa.TypeAssert)
